@@ -237,10 +237,12 @@ where
     fn is_valid_symbol(&self, symbol: T) -> bool {
         if COMPRESSED {
             let index: usize = symbol.as_();
-            self.codes_encode
-                .as_ref()
-                .and_then(|codes| codes.get(index))
-                .is_some_and(|code| code.len != 0)
+            AsPrimitive::<T>::as_(index) == symbol // the symbol fits in usize
+                && self
+                    .codes_encode
+                    .as_ref()
+                    .and_then(|codes| codes.get(index))
+                    .is_some_and(|code| code.len != 0)
         } else {
             self.sigma.is_some_and(|sigma| symbol <= sigma)
         }
